@@ -253,7 +253,7 @@ Print Assumptions C11_untouched_first_hello.
    extended_master_secret, server_name), if it completes, completes exactly as the untouched one *)
 Theorem C11_first_hello_steering_harmless :
   forall ck sk seeded t o,
-    t_sh_alpn t = 0 -> t_sh_suite t = 0 ->
+    t_sh_alpn t = 0 -> t_sh_suite t = 0 -> t_sh_sessionid t = false ->
     negotiate12_steered ck sk seeded true t = Ok o ->
     negotiate12_steered ck sk seeded true no_steering = Ok o.
 Proof. exact first_hello_steering_harmless. Qed.
@@ -280,6 +280,13 @@ Theorem C11_hook_alpn_is_the_final_server_hello :
     o_alpn o = t_sh_alpn t /\ In (o_alpn o) (c_alpn (k_cfg ck)).
 Proof. exact hook_alpn_is_the_final_server_hello. Qed.
 Print Assumptions C11_hook_alpn_is_the_final_server_hello.
+
+(* ... and cannot rename a RESUMED session: a hook that changes the session id completes only full handshakes *)
+Theorem C11_hook_cannot_rename_a_resumed_session :
+  forall ck sk seeded hv t o,
+    negotiate12_steered ck sk seeded hv t = Ok o -> t_sh_sessionid t = true -> o_resumed o = false.
+Proof. exact hook_cannot_rename_a_resumed_session. Qed.
+Print Assumptions C11_hook_cannot_rename_a_resumed_session.
 
 (* ---- "the cipher suite fits the server's key type": true for the key the suite FILTER used (clause pol_suite)
    and, with a single certificate, for the certificate presented ... *)
@@ -359,6 +366,32 @@ Theorem C11_common_signature_scheme_yet_refused :
                 sig_allowed c x /\ sig_allowed s x /\ sig_fits false (c_key s) x = true.
 Proof. exact common_signature_scheme_yet_refused. Qed.
 Print Assumptions C11_common_signature_scheme_yet_refused.
+
+(* ---- "fails on both sides with an alert" and the connection IDs of DTLS 1.3 (known finding, NOT repaired):
+   abortFlight3 clears the connection IDs before the client's alert is written.  The switch
+   [client13_abort_keeps_connection_ids] changes exactly this: some `Fail Client a` become `Silent Client` *)
+Theorem C11_connection_id_switch_only_silences_client_alerts :
+  forall keep ck sk seeded,
+    negotiate_conn_sw keep ck sk seeded = negotiate_conn_sw true ck sk seeded \/
+    (keep = false /\ negotiate_conn_sw keep ck sk seeded = Silent Client /\
+     exists a, negotiate_conn_sw true ck sk seeded = Fail Client a).
+Proof. exact connection_id_switch_only_silences_client_alerts. Qed.
+Print Assumptions C11_connection_id_switch_only_silences_client_alerts.
+
+Theorem C11_client13_alert_sealed_without_connection_id_refuted :
+  exists c s, negotiate_sw false c s false = Some (Silent Client) /\
+              negotiate_sw true c s false = Some (Fail Client g11_alert_bad_certificate) /\
+              c_cid c <> None /\ c_cid s = Some [1; 2; 3; 4].
+Proof. exact client13_alert_sealed_without_connection_id_refuted. Qed.
+Print Assumptions C11_client13_alert_sealed_without_connection_id_refuted.
+
+Theorem C11_client13_alert_as_coded :
+  if client13_abort_keeps_connection_ids
+  then forall c s seeded, negotiate c s seeded = negotiate_sw true c s seeded
+  else exists c s, negotiate c s false = Some (Silent Client) /\
+                   negotiate_sw true c s false = Some (Fail Client g11_alert_bad_certificate).
+Proof. exact client13_alert_as_coded. Qed.
+Print Assumptions C11_client13_alert_as_coded.
 
 (* ---- the hypotheses are satisfiable: default option sets, Ed25519 server certificate *)
 Example C11_default_pair_completes :
